@@ -367,6 +367,7 @@ const (
 	vCorrupt          // Get returns the value with bits flipped
 	vTruncate         // Get returns a prefix (length in faultArg)
 	vMissing          // Get reports redis.Nil-like "not found"
+	vHang             // the operation does not answer: it returns an error only when the request's context ends
 )
 
 type vRedisOp struct {
@@ -420,6 +421,18 @@ func (r *vRedis) begin(ctx context.Context, kind, key string) (int, vFault) {
 	f := r.faults[idx]
 	if r.down {
 		f = vErrBefore
+	}
+	if f == vHang {
+		r.ops = append(r.ops, vRedisOp{Idx: idx, Kind: kind, Key: key, Err: true})
+		r.mu.Unlock()
+		if ctx != nil {
+			select {
+			case <-ctx.Done():
+			case <-time.After(2 * time.Second):
+			}
+		}
+		r.mu.Lock()
+		return idx, vErrBefore
 	}
 	r.ops = append(r.ops, vRedisOp{Idx: idx, Kind: kind, Key: key, Err: f == vErrBefore || f == vErrAfter || f == vMissing})
 	return idx, f
@@ -816,6 +829,7 @@ type vMainBrowser struct {
 	remote string
 	ever   map[string]string // every cookie (name=value) the jar ever held
 	host   string            // Host header sent to the proxy when it differs from the origin (reverse proxy in front)
+	deadline time.Duration   // when > 0 every request carries a context that ends after this long
 }
 
 func (e *vEnv) newBrowser(origin string) *vMainBrowser {
@@ -853,6 +867,11 @@ func (b *vMainBrowser) do(method, target string, headers [][2]string, body strin
 		return &vResult{Status: -1, Header: http.Header{}, Body: err.Error()}
 	}
 	req.RemoteAddr = b.remote
+	if b.deadline > 0 {
+		ctx, cancel := context.WithTimeout(req.Context(), b.deadline)
+		defer cancel()
+		req = req.WithContext(ctx)
+	}
 	res := b.e.serve(req)
 	u := *b.origin
 	if i := strings.IndexAny(target, "?#"); i >= 0 {
